@@ -9,8 +9,9 @@
   1. `trueValue_exp_sound`   : trueValue .exp n c e = some (tn,t)   → tn = false ∧ Real.exp X ∈ₛ t
      `trueValue_exp2_sound`  : trueValue .exp2 n c e = some (tn,t)  → tn = false ∧ (2:ℝ)^X ∈ₛ t
      `trueValue_exp10_sound` : trueValue .exp10 n c e = some (tn,t) → tn = false ∧ (10:ℝ)^X ∈ₛ t
-     `trueValue_expm1_sound` : trueValue .expm1 n c e = some (tn,t) → ∃ T, T ∈ₛ t ∧ Real.exp X − 1 = ±T (sign tn)
      for every c with 0 < c < 10^35 and every e.
+  2. `trueValue_exp_isSome`, `trueValue_exp2_isSome`, `trueValue_exp10_isSome` : the oracle answers whenever
+     e + ndigits c ≤ 7 (i.e. on every argument that is not judged by the overflow/underflow rule)
 -/
 import D128.Spec.Elem
 import D128.Proofs.EnclosureRange
@@ -96,7 +97,7 @@ theorem mul_pt_eq_scale (x : ℚ) (b : I) : (I.pt x).mul b = b.scale x := by
 /-- a narrow interval of moderate magnitude scaled by `|x| ≤ 10^59` satisfies the range conditions of `expI` -/
 theorem scale_small (b : I) (x : ℚ) (hb : b.lo ≤ b.hi) (hb1 : |b.lo| ≤ 3) (hb2 : |b.hi| ≤ 3)
     (hbw : b.hi - b.lo ≤ 1 / 10 ^ 75) (hx : |x| ≤ 10 ^ 59) :
-    (b.scale x).hi - (b.scale x).lo ≤ 20000 ∧ |(b.scale x).lo| ≤ 10 ^ 60 ∧ |(b.scale x).hi| ≤ 10 ^ 60 := by
+    (b.scale x).hi - (b.scale x).lo ≤ 4 ∧ |(b.scale x).lo| ≤ 10 ^ 60 ∧ |(b.scale x).hi| ≤ 10 ^ 60 := by
   obtain ⟨s1, s2, s3, s4⟩ := scale_bounds b b.lo x (le_refl _) hb
   have hW : (b.hi - b.lo + (|b.lo| + |b.hi|) * eps) * |x| ≤ 1 := by
     have : b.hi - b.lo + (|b.lo| + |b.hi|) * eps ≤ 1 / 10 ^ 74 := by
@@ -136,19 +137,19 @@ theorem trueValue_exp_eq (n : Bool) (c : Nat) (e : Int) :
     trueValue .exp n c e =
       if e + (ndigits c : Int) > 7 then none
       else if e + (ndigits c : Int) < -40 then some (false, ⟨⟨1 - pow10 (-39), 1 + pow10 (-39)⟩, 0⟩)
-      else some (false, Encl.exp (if e < -200 || e > 200 then 0 else (if n then -(mag c e) else mag c e))) := rfl
+      else (Encl.exp (if e < -200 || e > 200 then 0 else (if n then -(mag c e) else mag c e))).map (fun t => (false, t)) := rfl
 
 theorem trueValue_exp2_eq (n : Bool) (c : Nat) (e : Int) :
     trueValue .exp2 n c e =
       if e + (ndigits c : Int) > 7 then none
       else if e + (ndigits c : Int) < -40 then some (false, ⟨⟨1 - pow10 (-39), 1 + pow10 (-39)⟩, 0⟩)
-      else some (false, expI ((I.pt (if e < -200 || e > 200 then 0 else (if n then -(mag c e) else mag c e))).mul ln2)) := rfl
+      else (expI ((I.pt (if e < -200 || e > 200 then 0 else (if n then -(mag c e) else mag c e))).mul ln2)).map (fun t => (false, t)) := rfl
 
 theorem trueValue_exp10_eq (n : Bool) (c : Nat) (e : Int) :
     trueValue .exp10 n c e =
       if e + (ndigits c : Int) > 7 then none
       else if e + (ndigits c : Int) < -40 then some (false, ⟨⟨1 - pow10 (-39), 1 + pow10 (-39)⟩, 0⟩)
-      else some (false, expI ((I.pt (if e < -200 || e > 200 then 0 else (if n then -(mag c e) else mag c e))).mul ln10)) := rfl
+      else (expI ((I.pt (if e < -200 || e > 200 then 0 else (if n then -(mag c e) else mag c e))).mul ln10)).map (fun t => (false, t)) := rfl
 
 /-- for |y| ≤ 10^-39/2 (in particular |y| < 3·10^-40) the value exp y is in the `nearOne` enclosure -/
 theorem nearOne_sound {y : ℝ} (hy : |y| ≤ 1 / 2 * (10 : ℝ) ^ (-39 : Int)) :
@@ -191,20 +192,25 @@ theorem trueValue_exp_sound (n : Bool) (c : Nat) (e : Int) (tn : Bool) (t : Sci)
       have h3 : (10 : ℝ) ^ (-41 : Int) ≤ 1 / 2 * (10 : ℝ) ^ (-39 : Int) := by norm_num
       exact le_trans (le_trans h1.le h2) h3
     · rename_i h40
-      simp only [Option.some.injEq, Prod.mk.injEq] at h
-      obtain ⟨rfl, rfl⟩ := h
-      refine ⟨rfl, ?_⟩
-      rw [xguard n c e (by omega) (by omega)]
-      exact exp_sound' _ (le_trans (abs_toRat_le_of n hc0 e 7 (by omega)) (by norm_num))
+      rw [xguard n c e (by omega) (by omega)] at h
+      obtain ⟨s, hs, hst⟩ := Option.map_eq_some_iff.1 h
+      simp only [Prod.mk.injEq] at hst
+      obtain ⟨rfl, rfl⟩ := hst
+      exact ⟨rfl, exp_sound hs⟩
 
 /-- exponential of a rational multiple of an enclosed constant (`ln2`, `ln10`) -/
-theorem expI_scaled_sound (b : I) (β : ℝ) (hβ : β ∈ᵢ b) (hb1 : |b.lo| ≤ 3) (hb2 : |b.hi| ≤ 3)
+theorem expI_scaled_sound {b : I} {β : ℝ} (hβ : β ∈ᵢ b) {x : ℚ} {s : Sci}
+    (h : expI ((I.pt x).mul b) = some s) : Real.exp ((x : ℝ) * β) ∈ₛ s :=
+  expI_sound h (mem_mul (mem_pt x) hβ)
+
+/-- and `expI` does answer for such arguments -/
+theorem expI_scaled_isSome (b : I) (hb : b.lo ≤ b.hi) (hb1 : |b.lo| ≤ 3) (hb2 : |b.hi| ≤ 3)
     (hbw : b.hi - b.lo ≤ 1 / 10 ^ 75) (x : ℚ) (hx : |x| ≤ 10 ^ 59) :
-    Real.exp ((x : ℝ) * β) ∈ₛ expI ((I.pt x).mul b) := by
-  have hy : ((x : ℝ) * β) ∈ᵢ (I.pt x).mul b := mem_mul (mem_pt x) hβ
-  rw [mul_pt_eq_scale] at hy ⊢
-  obtain ⟨w, l1, l2⟩ := scale_small b x (lo_le_hi_of_mem hβ) hb1 hb2 hbw hx
-  exact expI_sound' _ _ hy w l1 l2
+    ∃ s, expI ((I.pt x).mul b) = some s := by
+  rw [mul_pt_eq_scale]
+  obtain ⟨w, l1, l2⟩ := scale_small b x hb hb1 hb2 hbw hx
+  obtain ⟨s1, s2, -, -⟩ := scale_bounds b b.lo x (le_refl _) hb
+  exact expI_isSome _ (le_trans s1 s2) w l1 l2
 
 theorem trueValue_exp2_sound (n : Bool) (c : Nat) (e : Int) (tn : Bool) (t : Sci)
     (hc0 : c ≠ 0) (hc : c < 10 ^ 35) (h : trueValue .exp2 n c e = some (tn, t)) :
@@ -240,14 +246,13 @@ theorem trueValue_exp2_sound (n : Bool) (c : Nat) (e : Int) (tn : Bool) (t : Sci
       rw [mul_one] at this
       exact le_trans this (le_trans (le_trans h1.le h2) h3)
     · rename_i h40
-      simp only [Option.some.injEq, Prod.mk.injEq] at h
-      obtain ⟨rfl, rfl⟩ := h
+      rw [xguard n c e (by omega) (by omega)] at h
+      obtain ⟨s, hs, hst⟩ := Option.map_eq_some_iff.1 h
+      simp only [Prod.mk.injEq] at hst
+      obtain ⟨rfl, rfl⟩ := hst
       refine ⟨rfl, ?_⟩
-      rw [xguard n c e (by omega) (by omega), hrw]
-      have l1 := ln2_lo_ge; have l2 := ln2_hi_le; have l3 := lo_le_hi_of_mem ln2_sound
-      exact expI_scaled_sound ln2 _ ln2_sound
-        (by rw [abs_le]; constructor <;> linarith) (by rw [abs_le]; constructor <;> linarith) ln2_width _
-        (le_trans (abs_toRat_le_of n hc0 e 7 (by omega)) (by norm_num))
+      rw [hrw]
+      exact expI_scaled_sound ln2_sound hs
 
 theorem trueValue_exp10_sound (n : Bool) (c : Nat) (e : Int) (tn : Bool) (t : Sci)
     (hc0 : c ≠ 0) (hc : c < 10 ^ 35) (h : trueValue .exp10 n c e = some (tn, t)) :
@@ -282,21 +287,64 @@ theorem trueValue_exp10_sound (n : Bool) (c : Nat) (e : Int) (tn : Bool) (t : Sc
         mul_le_mul_of_nonneg_left hlog10 (abs_nonneg _)
       exact le_trans this (le_trans (mul_le_mul_of_nonneg_right (le_trans h1.le h2) (by norm_num)) h3)
     · rename_i h40
-      simp only [Option.some.injEq, Prod.mk.injEq] at h
-      obtain ⟨rfl, rfl⟩ := h
+      rw [xguard n c e (by omega) (by omega)] at h
+      obtain ⟨s, hs, hst⟩ := Option.map_eq_some_iff.1 h
+      simp only [Prod.mk.injEq] at hst
+      obtain ⟨rfl, rfl⟩ := hst
       refine ⟨rfl, ?_⟩
-      rw [xguard n c e (by omega) (by omega), hrw]
-      have l1 := ln10_lo_ge; have l2 := ln10_hi_le; have l3 := ln10_lo_le_hi
-      exact expI_scaled_sound ln10 _ ln10_sound
-        (by rw [abs_le]; constructor <;> linarith) (by rw [abs_le]; constructor <;> linarith) ln10_width _
-        (le_trans (abs_toRat_le_of n hc0 e 7 (by omega)) (by norm_num))
+      rw [hrw]
+      exact expI_scaled_sound ln10_sound hs
 
-example : Real.exp (X true 12345 (-2)) ∈ₛ Encl.exp (-(12345 / 100)) := by
-  have h : trueValue .exp true 12345 (-2) = some (false, Encl.exp (-(12345 / 100))) := by
+/-! ### the oracle does answer: totality of `trueValue` on the exponential family -/
+
+theorem trueValue_exp_isSome (n : Bool) (c : Nat) (e : Int) (hc0 : c ≠ 0) (hc : c < 10 ^ 35)
+    (h7 : e + (ndigits c : Int) ≤ 7) : ∃ t, trueValue .exp n c e = some (false, t) := by
+  have hnd := ndigits_le_35 hc0 hc
+  have hnd1 := ndigits_pos c
+  rw [trueValue_exp_eq, if_neg (by omega)]
+  split
+  · exact ⟨_, rfl⟩
+  · rw [xguard n c e (by omega) (by omega)]
+    obtain ⟨s, hs⟩ := exp_isSome (Val.fin n c e).toRat
+      (le_trans (abs_toRat_le_of n hc0 e 7 (by omega)) (by norm_num))
+    exact ⟨s, by rw [hs]; rfl⟩
+
+theorem trueValue_exp2_isSome (n : Bool) (c : Nat) (e : Int) (hc0 : c ≠ 0) (hc : c < 10 ^ 35)
+    (h7 : e + (ndigits c : Int) ≤ 7) : ∃ t, trueValue .exp2 n c e = some (false, t) := by
+  have hnd := ndigits_le_35 hc0 hc
+  have hnd1 := ndigits_pos c
+  rw [trueValue_exp2_eq, if_neg (by omega)]
+  split
+  · exact ⟨_, rfl⟩
+  · rw [xguard n c e (by omega) (by omega)]
+    have l1 := ln2_lo_ge; have l2 := ln2_hi_le; have l3 := lo_le_hi_of_mem ln2_sound
+    obtain ⟨s, hs⟩ := expI_scaled_isSome ln2 l3
+      (by rw [abs_le]; constructor <;> linarith) (by rw [abs_le]; constructor <;> linarith) ln2_width
+      (Val.fin n c e).toRat (le_trans (abs_toRat_le_of n hc0 e 7 (by omega)) (by norm_num))
+    exact ⟨s, by rw [hs]; rfl⟩
+
+theorem trueValue_exp10_isSome (n : Bool) (c : Nat) (e : Int) (hc0 : c ≠ 0) (hc : c < 10 ^ 35)
+    (h7 : e + (ndigits c : Int) ≤ 7) : ∃ t, trueValue .exp10 n c e = some (false, t) := by
+  have hnd := ndigits_le_35 hc0 hc
+  have hnd1 := ndigits_pos c
+  rw [trueValue_exp10_eq, if_neg (by omega)]
+  split
+  · exact ⟨_, rfl⟩
+  · rw [xguard n c e (by omega) (by omega)]
+    have l1 := ln10_lo_ge; have l2 := ln10_hi_le; have l3 := ln10_lo_le_hi
+    obtain ⟨s, hs⟩ := expI_scaled_isSome ln10 l3
+      (by rw [abs_le]; constructor <;> linarith) (by rw [abs_le]; constructor <;> linarith) ln10_width
+      (Val.fin n c e).toRat (le_trans (abs_toRat_le_of n hc0 e 7 (by omega)) (by norm_num))
+    exact ⟨s, by rw [hs]; rfl⟩
+
+example : ∃ t, trueValue .exp true 12345 (-2) = some (false, t) ∧ Real.exp (X true 12345 (-2)) ∈ₛ t := by
+  obtain ⟨s, hs⟩ := exp_isSome (-(2469 / 20)) (by rw [abs_le]; constructor <;> norm_num)
+  have h : trueValue .exp true 12345 (-2) = some (false, s) := by
     rw [trueValue_exp_eq]
     have : ndigits 12345 = 5 := ndigits_eq_of (by norm_num) (by norm_num) (by norm_num)
     rw [this]
     norm_num [mag, pow10_eq_zpow]
-  exact (trueValue_exp_sound true 12345 (-2) false _ (by norm_num) (by norm_num) h).2
+    exact hs
+  exact ⟨s, h, (trueValue_exp_sound true 12345 (-2) false _ (by norm_num) (by norm_num) h).2⟩
 
 end EnclPf
